@@ -41,7 +41,7 @@ func runC20(c *Ctx) {
 	tablesC20(c)
 	// table length
 	var tableLen int64 = -1
-	st := m.Server.Underlying().(*types.Struct)
+	st := m.Owner(m.fConds).Underlying().(*types.Struct)
 	for i := 0; i < st.NumFields(); i++ {
 		if st.Field(i).Name() == m.fConds {
 			tableLen = st.Field(i).Type().Underlying().(*types.Array).Len()
@@ -167,11 +167,89 @@ func runC20(c *Ctx) {
 	}
 	// constructor initialisation
 	okInit := false
-	for _, a := range w.FieldAccesses(m.Server, m.fConds) {
-		st, ok := a.Instr.(*ssa.Store)
-		if !ok || a.Kind != "write" {
-			continue
+	type initStore struct {
+		st *ssa.Store
+		fn *ssa.Function
+	}
+	var inits []initStore
+	for _, a := range w.FieldAccesses(m.Owner(m.fConds), m.fConds) {
+		if st, ok := a.Instr.(*ssa.Store); ok && a.Kind == "write" {
+			inits = append(inits, initStore{st, a.Fn})
 		}
+	}
+	// ... or the table is filled in a local value of a constructor function whose result is stored into the server
+	// (a named table type or a helper struct returned by value)
+	{
+		var tblType types.Type
+		ost := m.Owner(m.fConds).Underlying().(*types.Struct)
+		for i := 0; i < ost.NumFields(); i++ {
+			if ost.Field(i).Name() == m.fConds {
+				tblType = ost.Field(i).Type()
+			}
+		}
+		stored := func(h *ssa.Function) bool {
+			// h's result reaches a field of the server (or of the table's owner) by a plain store
+			for _, site := range w.callSites(h) {
+				cv, ok := site.(*ssa.Call)
+				if !ok || cv.Referrers() == nil {
+					continue
+				}
+				for _, r := range *cv.Referrers() {
+					if st, isSt := r.(*ssa.Store); isSt && st.Val == ssa.Value(cv) {
+						if fa, isFA := st.Addr.(*ssa.FieldAddr); isFA {
+							if n := derefNamedT(fa.X.Type()); n == m.Server || n == m.Owner(m.fConds) {
+								return true
+							}
+						}
+					}
+				}
+			}
+			return false
+		}
+		for _, h := range w.FuncsOfPkg(shimPkg) {
+			if h.Signature.Recv() != nil || h.Parent() != nil || tblType == nil {
+				continue
+			}
+			for _, b := range h.Blocks {
+				for _, ins := range b.Instrs {
+					st, ok := ins.(*ssa.Store)
+					if !ok {
+						continue
+					}
+					ia, ok := st.Addr.(*ssa.IndexAddr)
+					if !ok {
+						continue
+					}
+					base := ia.X
+					if fa, isFA := base.(*ssa.FieldAddr); isFA && fieldName(fa.X.Type(), fa.Field) == m.fConds {
+						base = fa.X
+					}
+					a, isAlloc := base.(*ssa.Alloc)
+					if !isAlloc {
+						continue
+					}
+					el := a.Type().(*types.Pointer).Elem()
+					if !(types.Identical(el, tblType) || types.Identical(el, m.Owner(m.fConds))) || !stored(h) {
+						continue
+					}
+					// the local is what the function returns
+					ret := false
+					for _, r := range liveReturns(h) {
+						if len(r.Results) == 1 {
+							if ld, isLd := strip(r.Results[0]).(*ssa.UnOp); isLd && ld.X == ssa.Value(a) {
+								ret = true
+							}
+						}
+					}
+					if ret {
+						inits = append(inits, initStore{st, h})
+					}
+				}
+			}
+		}
+	}
+	for _, a := range inits {
+		st := a.st
 		ia, ok := st.Addr.(*ssa.IndexAddr)
 		if !ok {
 			continue
@@ -180,7 +258,7 @@ func runC20(c *Ctx) {
 		full := false
 		if isForwardRangeIndex(ia.Index) {
 			// the loop bound is the table length
-			f := w.Facts(a.Fn)
+			f := w.Facts(a.fn)
 			full = f.Any(st.Block(), func(l Lit) bool {
 				bin, ok := l.V.(*ssa.BinOp)
 				if !ok || !l.Pol || bin.Op != token.LSS || bin.X != ia.Index {
@@ -221,7 +299,7 @@ func runC20(c *Ctx) {
 	}
 	// the table is written only while the server is being constructed: the writing function is a constructor
 	// (no receiver) or is called from constructors only
-	for _, a := range w.FieldAccesses(m.Server, m.fConds) {
+	for _, a := range w.FieldAccesses(m.Owner(m.fConds), m.fConds) {
 		if a.Kind != "write" && a.Kind != "addr" && a.Kind != "addrcall" {
 			continue
 		}
@@ -403,7 +481,19 @@ func checkCondUse(c *Ctx, m *shimModel, fn *ssa.Function, method string, needLoc
 		n++
 		recv := w.Expr(call.Common().Args[0])
 		want := "p0." + m.fConds + "[p1]"
-		okRecv := recv == want
+		// ... possibly inside the helper type of the server that holds the table
+		isWant := func(ex string) bool {
+			if ex == want {
+				return true
+			}
+			rest := strings.TrimPrefix(ex, "p0.")
+			if rest == ex || !strings.HasSuffix(rest, "."+m.fConds+"[p1]") {
+				return false
+			}
+			mid := strings.TrimSuffix(rest, "."+m.fConds+"[p1]")
+			return mid != "" && !strings.ContainsAny(mid, ".[(") && m.Owner(m.fConds) != m.Server
+		}
+		okRecv := isWant(recv)
 		if !okRecv {
 			// handed back by a lookup helper: every non-nil value it can yield here is that entry
 			n := 0
@@ -413,7 +503,7 @@ func checkCondUse(c *Ctx, m *shimModel, fn *ssa.Function, method string, needLoc
 					continue
 				}
 				n++
-				if w.ExprIn(fn, lf.Val) != want {
+				if !isWant(w.ExprIn(fn, lf.Val)) {
 					okRecv = false
 				}
 			}
@@ -436,7 +526,7 @@ func checkCondUse(c *Ctx, m *shimModel, fn *ssa.Function, method string, needLoc
 					fa, ok := ld.X.(*ssa.FieldAddr)
 					return ok && fieldName(fa.X.Type(), fa.Field) == "L" && strip(fa.X) == strip(condVal)
 				}
-				if strings.HasSuffix(calleeName(lc), "sync.Locker).Lock") && (w.Expr(lc.Common().Value) == want+".L" || (okRecv && sameCond(lc.Common().Value))) {
+				if strings.HasSuffix(calleeName(lc), "sync.Locker).Lock") && ((strings.HasSuffix(w.Expr(lc.Common().Value), ".L") && isWant(strings.TrimSuffix(w.Expr(lc.Common().Value), ".L"))) || (okRecv && sameCond(lc.Common().Value))) {
 					if li, ok := lc.(ssa.Instruction); ok && li.Parent() == call.Parent() && InstrDominates(li, call) {
 						// not released before the wait
 						released := false
